@@ -150,8 +150,10 @@ impl ISocket for RepSocket {
       }
     }
 
+    #[cfg(rzmq_verif)] crate::verif::reqrep::point("rep_recv_checked").await;
     let rcvtimeo_opt = self.core_state_read().options.rcvtimeo;
     let (peer_info, mut payload_frames) = self.recv_complete_request(rcvtimeo_opt).await?;
+    #[cfg(rzmq_verif)] crate::verif::reqrep::point("rep_recv_got").await;
     *self.state.lock() = RepState::ReceivedRequest(peer_info);
 
     if payload_frames.is_empty() {
@@ -181,6 +183,7 @@ impl ISocket for RepSocket {
       }
     };
 
+    #[cfg(rzmq_verif)] crate::verif::reqrep::point("rep_send_taken").await;
     let conn_iface: Arc<dyn ISocketConnection> = {
       let core_s_read = self.core_state_read();
       match core_s_read.endpoints.get(&peer_to_reply_to.target_endpoint_uri) {
@@ -236,8 +239,10 @@ impl ISocket for RepSocket {
       }
     }
 
+    #[cfg(rzmq_verif)] crate::verif::reqrep::point("rep_recvm_checked").await;
     let rcvtimeo_opt = self.core_state_read().options.rcvtimeo;
     let (peer_info, payload_frames) = self.recv_complete_request(rcvtimeo_opt).await?;
+    #[cfg(rzmq_verif)] crate::verif::reqrep::point("rep_recvm_got").await;
     *self.state.lock() = RepState::ReceivedRequest(peer_info);
     Ok(payload_frames)
   }
@@ -295,6 +300,7 @@ impl ISocket for RepSocket {
       };
       let sender = self.ingress_engine.register_pipe(pipe_read_id, rcvhwm, rcvbatch_count);
       self.pending_pipe_senders.lock().insert(pipe_read_id, sender);
+      #[cfg(rzmq_verif)] crate::verif::reqrep::mark("rep_attached");
     } else {
       tracing::warn!(
         handle = self.core.handle, pipe_read_id,
@@ -329,5 +335,6 @@ impl ISocket for RepSocket {
 
     self.ingress_engine.deregister_pipe(pipe_read_id);
     self.pending_pipe_senders.lock().remove(&pipe_read_id);
+    #[cfg(rzmq_verif)] crate::verif::reqrep::mark("rep_detached");
   }
 }
